@@ -1,6 +1,7 @@
 pub mod c01;
 pub mod c02;
 pub mod c03;
+pub mod c04;
 pub mod c06;
 pub mod c07;
 pub mod c08;
@@ -13,7 +14,7 @@ pub mod hist;
 use crate::runner::PropDef;
 
 pub fn all() -> Vec<PropDef> {
-    vec![c01::def(), c02::def(), c03::def(), c06::def(), c07::def(), c08::def(), c09::def(), c10::def(), c15::def(), c17::def()]
+    vec![c01::def(), c02::def(), c03::def(), c04::def(), c06::def(), c07::def(), c08::def(), c09::def(), c10::def(), c15::def(), c17::def()]
 }
 
 pub fn find(id: &str) -> Option<PropDef> {
